@@ -155,6 +155,10 @@ def gen_variant(r, trig):
             headers = []
             wire_body = b''
     exp['target_form'] = 'connect' if method == 'CONNECT' else ('absolute' if target.startswith('http://') else 'origin')
+    if target.startswith('http://') and r.chance(0.3):
+        # scheme names are case-insensitive and need not be http: the authority is the target's host whatever the scheme is spelt like
+        target = r.pick(['HTTP', 'Http', 'hTtP', 'https', 'HTTPS', 'ws', 'WSS', 'ftp', 'x-a.b+c']) + target[4:]
+        exp['target_form'] = 'absolute(%s)' % target.split(':')[0]
     # other headers around
     others = []
     used = set()
